@@ -26,6 +26,9 @@ def run(tier):
     for kind in ("tumbling", "count", "session", "global", "sliding", "direct", "cep"):      # Stop right after Execute
         scen.append({"kind": kind, "strategy": "drop", "sinks": "fast", "directed": "stopatonce"})
     scen.append({"kind": "direct", "strategy": "expand", "sinks": "fast", "directed": "slowdrain"})
+    for kind in ("direct", "count", "analytic"):      # two concurrent Stop calls: each one is a barrier
+        for lag in (0, 1, 3, 6):
+            scen.append({"kind": kind, "strategy": "expand", "sinks": "fast", "directed": "stoptwice", "ops": lag})
     for kind in ("late", "slide_idle"):      # watermark far ahead of the window cursor (idle timeout over historic timestamps)
         scen.append({"kind": kind, "strategy": "drop", "sinks": "fast", "directed": "idlestop"})
     for kind in ("boom_direct", "boom_where", "boom_count", "boom_agg", "boom_global", "boom_analytic", "boom_cep"):      # a row that makes a user function panic does not stop later rows
